@@ -37,6 +37,10 @@ class BufferAPI
     Py_ssize_t atomicSize() const
       { return FixedArrayAtomicSize<T>::value; }
 
+    //  The size, in bytes, of one array element (e.g. 12 for a V3fArray).
+    Py_ssize_t elementSize() const
+      { return atomicSize() * FixedArrayWidth<T>::value; }
+
     //  NonCopyable
     BufferAPI (const BufferAPI &rhs)            = delete;
     BufferAPI &operator= (const BufferAPI &rhs) = delete;
@@ -83,7 +87,7 @@ class SharedBufferAPI : public BufferAPI<ArrayT>
 {
   public:
 
-    using BufferAPI<ArrayT>::atomicSize;
+    using BufferAPI<ArrayT>::elementSize;
 
     explicit
     SharedBufferAPI (ArrayT &a)
@@ -101,7 +105,7 @@ class SharedBufferAPI : public BufferAPI<ArrayT>
      { return true; }
 
     Py_ssize_t numBytes() const override
-     { return _orig.len() * atomicSize() * _orig.stride(); }
+     { return _orig.len() * elementSize(); }  // product of shape x itemsize
 
     bool readOnly() const override
      { return !_orig.writable(); }
@@ -123,7 +127,7 @@ class CopyBufferAPI : public BufferAPI<ArrayT>
 {
   public:
 
-    using BufferAPI<ArrayT>::atomicSize;
+    using BufferAPI<ArrayT>::elementSize;
 
     explicit
     CopyBufferAPI (ArrayT &a)
@@ -141,7 +145,7 @@ class CopyBufferAPI : public BufferAPI<ArrayT>
      { return false; }
 
     Py_ssize_t numBytes() const override
-     { return _copy.len() * atomicSize() * _copy.stride(); }
+     { return _copy.len() * elementSize(); }  // product of shape x itemsize
 
     bool readOnly() const override
      { return false; }
